@@ -1813,6 +1813,9 @@ std::string MDSDRV_Linker::keyify_string(const std::string& input) const
 		else if(std::isalnum(i) || i == '_')
 			out.push_back(std::toupper(i));
 	}
+	// a C or ASM symbol cannot begin with a digit
+	if(out.size() && out[0] >= '0' && out[0] <= '9')
+		out.insert(out.begin(), '_');
 	return out;
 }
 
